@@ -470,6 +470,13 @@ def run_history(eng, p):
                              "%s" % (bool(avail), "succeeds" if ok else
                                      "raises %s" % type(data).__name__),
                              detail=repr(data)[:200])
+                with quiet():
+                    listed = feat in ds.features
+                if bool(listed) != bool(avail):
+                    eng.fail("availability: `ds.features` %s the feature "
+                             "but `feat in ds` is %s" % (
+                                 "lists" if listed else "does not list",
+                                 bool(avail)))
                 # fresh dataset, same data, same current configuration
                 ds2 = new_ds(p["feats"], ds.config.copy(), temps)
                 ok2, data2 = try_read(ds2, feat)
@@ -733,6 +740,11 @@ def replay(case, params, v):
                 ds.config[ed[1]].pop(ed[2], None)
         avail = feat in ds
         ok, data = rd(ds)
+        if (feat in ds.features) != bool(avail):
+            fails.append("listing: ds.features %s %r although `%s in ds` is "
+                         "%s (edits %r)" % (
+                             "lists" if feat in ds.features else "omits",
+                             feat, feat, bool(avail), p["edits"]))
         if bool(avail) != ok:
             fails.append("availability: `%s in ds` is %s but reading %s "
                          "(config %r)" % (
@@ -829,6 +841,8 @@ def classify(msg, p, v):
         return fam + "|availability|" + msg.split("but reading")[1][:60]
     if msg.startswith("precedence"):
         return "emodulus|temperature-precedence"
+    if msg.startswith("listing"):
+        return "%s|features-list-disagrees-with-availability" % fam
     if msg.startswith("stale"):
         eds = [e for e in p["edits"] if e[0] in ("set", "del")]
         ed = eds[-1] if eds else ["?", "?", "?"]
